@@ -240,6 +240,16 @@ PROPS["C12"] = {
     "assumptions": _CONTAINER_ASSUME + ["derived types: bounded payloads and sampled programs, see C07-C11"],
 }
 
+_FIELDSTATE_UNIT = {"kind": "verus", "unit": "fieldstate"}
+_JSON_SOURCE_UNIT = {"kind": "verus", "unit": "json_source"}
+PROPS["C13"]["units"] = [_JSON_SOURCE_UNIT] + PROPS["C13"]["units"]
+PROPS["C13"]["technique"] = "Verus on the extracted `IntoValue for serde_json::Value` (kind() and into_value() both equal the kind serde_json holds; numbers handed over unchanged; unbounded, all documents) + " + PROPS["C13"]["technique"]
+PROPS["C13"]["text"] = "Unbounded (Verus, unit json_source): for every serde_json::Value -- strings, arrays and objects included -- `kind()` equals the kind of `into_value()`, both equal the classification 'PosInt => Integer, NegInt => NegativeInteger, Float => Float', the number / bool / string / array / object is handed over unchanged, and the `panic!()` arms are unreachable (relative to the stated model of serde_json::Number's accessors). " + PROPS["C13"]["text"]
+PROPS["C12"]["units"] = PROPS["C12"]["units"][:3] + [_JSON_SOURCE_UNIT, _FIELDSTATE_UNIT] + PROPS["C12"]["units"][3:]
+for _p in ("C04", "C07", "C08"):
+    PROPS[_p]["units"] = [_FIELDSTATE_UNIT] + PROPS[_p]["units"]
+    PROPS[_p]["text"] += " The derive's helper FieldState (src/lib.rs) is under contract in Verus unit `fieldstate`: is_missing is true exactly for Missing (so present-but-invalid and defaulted fields are never reported missing), unwrap requires and returns the value."
+
 NOT_APPLICABLE = {
     "C20": "HTTP extractors are three-line async compositions of actix-web/axum extractors with deserr::deserialize; neither installed verifier can run or specify the frameworks (futures, pinning, runtime), so every obligation would be an assumed contract on actix/axum with nothing left to prove; the features are off by default and not compiled in the baseline.",
 }
